@@ -20,7 +20,107 @@ type c03wo struct {
 	wh      []*ast.CallExpr // WriteHeader calls on w
 	copies  []*ast.CallExpr // io.Copy(w, …) calls
 	sc      *c03scope       // serveHTTP and the same-package functions it calls
-	litSc   *c03scope       // the deferred literal and the functions it calls
+	litSc   *c03scope       // the deferred function (literal or same-package callee) and what it calls
+	deferFn *flow.Func      // the deferred function
+	wFields map[*types.Var]bool
+}
+
+// deferred returns the body of a deferred statement as a function: the literal, or the
+// declaration of a same-package callee (`defer x.finish()`).
+func c03deferred(g *flow.Func, ds *ast.DeferStmt) *flow.Func {
+	if lit, ok := ast.Unparen(ds.Call.Fun).(*ast.FuncLit); ok {
+		return g.Lit(lit)
+	}
+	if fo, ok := g.Callee(ds.Call).(*types.Func); ok && fo.Pkg() == g.Pkg.Types {
+		if fd := declOf(g.Pkg, fo); fd != nil {
+			return funcOf(g.Pkg, fd)
+		}
+	}
+	return nil
+}
+
+// c03writerFields: struct fields of type http.ResponseWriter of the package that are only ever
+// assigned a variable of that type (a request-scoped struct carrying the writer): reading such
+// a field yields the request's writer.
+func c03writerFields(c *core.Ctx) map[*types.Var]bool {
+	out := map[*types.Var]bool{}
+	bad := map[*types.Var]bool{}
+	pkg := c.Prog.Pkg(hs)
+	if pkg == nil {
+		return out
+	}
+	isRW := func(t types.Type) bool { return t != nil && t.String() == "net/http.ResponseWriter" }
+	note := func(fv *types.Var, rhs ast.Expr) {
+		if fv == nil || !fv.IsField() || !isRW(fv.Type()) {
+			return
+		}
+		out[fv] = true
+		id, ok := ast.Unparen(rhs).(*ast.Ident)
+		if !ok {
+			// another such field is fine (copied between scopes)
+			if sel, ok := ast.Unparen(rhs).(*ast.SelectorExpr); ok {
+				if s := pkg.TypesInfo.Selections[sel]; s != nil && s.Kind() == types.FieldVal && isRW(s.Obj().Type()) {
+					return
+				}
+			}
+			bad[fv] = true
+			return
+		}
+		if o := pkg.TypesInfo.Uses[id]; o == nil || !isRW(o.Type()) {
+			bad[fv] = true
+		}
+	}
+	for _, file := range pkg.Syntax {
+		ast.Inspect(file, func(n ast.Node) bool {
+			switch x := n.(type) {
+			case *ast.KeyValueExpr:
+				if k, ok := x.Key.(*ast.Ident); ok {
+					if fv, ok := pkg.TypesInfo.Uses[k].(*types.Var); ok {
+						note(fv, x.Value)
+					}
+				}
+			case *ast.AssignStmt:
+				if len(x.Lhs) == len(x.Rhs) {
+					for i, l := range x.Lhs {
+						if sel, ok := ast.Unparen(l).(*ast.SelectorExpr); ok {
+							if s := pkg.TypesInfo.Selections[sel]; s != nil && s.Kind() == types.FieldVal {
+								fv, _ := s.Obj().(*types.Var)
+								note(fv, x.Rhs[i])
+							}
+						}
+					}
+				}
+			}
+			return true
+		})
+	}
+	for fv := range bad {
+		delete(out, fv)
+	}
+	return out
+}
+
+// isW: e denotes the request's ResponseWriter — the parameter (through locals and helper
+// parameters) or a writer-carrying field of a request-scoped struct.
+func (wo *c03wo) isW(e ast.Expr) bool {
+	e = ast.Unparen(e)
+	if id, ok := e.(*ast.Ident); ok {
+		o := c03canon(wo.f, c03obj(wo.f, id))
+		if o == wo.w {
+			return true
+		}
+		// a local copied from a writer-carrying field: w := rs.stdw
+		if defs := c03defs(wo.f, c03obj(wo.f, id)); len(defs) == 1 && defs[0].rhs != nil {
+			if _, isSel := defs[0].rhs.(*ast.SelectorExpr); isSel {
+				return wo.isW(defs[0].rhs)
+			}
+		}
+		return false
+	}
+	if fv := c03fieldOf(wo.f, e); fv != nil {
+		return wo.wFields[fv]
+	}
+	return false
 }
 
 func c03resolveWriteOut(c *core.Ctx, report bool) *c03wo {
@@ -44,11 +144,11 @@ func c03resolveWriteOut(c *core.Ctx, report bool) *c03wo {
 			if !ok {
 				continue
 			}
-			lit, ok := ast.Unparen(ds.Call.Fun).(*ast.FuncLit)
-			if !ok {
+			df := c03deferred(g, ds)
+			if df == nil {
 				continue
 			}
-			for _, h := range reach(g.Lit(lit), 3) {
+			for _, h := range reach(df, 3) {
 				for _, call := range calls(h.Body, false) {
 					if sel, ok := ast.Unparen(call.Fun).(*ast.SelectorExpr); ok && sel.Sel.Name == "WriteHeader" {
 						found = true
@@ -97,11 +197,9 @@ func c03resolveWriteOut(c *core.Ctx, report bool) *c03wo {
 	// the write-out may live in helpers called from serveHTTP (or from its deferred literal):
 	// the writer is recognised through the parameter bindings of the scope
 	wo.sc = newC03scope(f, 3)
+	wo.wFields = c03writerFields(c)
 	c03with(wo.sc, func() {
-		isW := func(e ast.Expr) bool {
-			id, ok := ast.Unparen(e).(*ast.Ident)
-			return ok && c03canon(f, c03obj(f, id)) == wo.w
-		}
+		isW := wo.isW
 		isWH := func(call *ast.CallExpr) bool {
 			sel, ok := ast.Unparen(call.Fun).(*ast.SelectorExpr)
 			return ok && sel.Sel.Name == "WriteHeader" && isW(sel.X) && len(call.Args) == 1
@@ -111,14 +209,15 @@ func c03resolveWriteOut(c *core.Ctx, report bool) *c03wo {
 			if !ok {
 				return true
 			}
-			lit, ok := ast.Unparen(ds.Call.Fun).(*ast.FuncLit)
-			if !ok {
+			df := c03deferred(f, ds)
+			if df == nil {
 				return true
 			}
-			for _, g := range reach(f.Lit(lit), 3) {
+			for _, g := range reach(df, 3) {
 				for _, call := range calls(g.Body, false) {
 					if isWH(call) {
-						wo.deferSt, wo.lit = ds, lit
+						wo.deferSt, wo.deferFn = ds, df
+						wo.lit, _ = ast.Unparen(ds.Call.Fun).(*ast.FuncLit)
 					}
 				}
 			}
@@ -135,8 +234,8 @@ func c03resolveWriteOut(c *core.Ctx, report bool) *c03wo {
 			}
 		}
 	})
-	if wo.lit != nil {
-		wo.litSc = newC03scope(f.Lit(wo.lit), 3)
+	if wo.deferFn != nil {
+		wo.litSc = newC03scope(wo.deferFn, 3)
 	}
 	return wo
 }
@@ -145,13 +244,13 @@ func c03resolveWriteOut(c *core.Ctx, report bool) *c03wo {
 // (or the response's header) before WriteHeader on every path?  (central repair of R-C03-6b)
 func c03WriteOutNormalises(c *core.Ctx) bool {
 	wo := c03resolveWriteOut(c, false)
-	if wo == nil || wo.lit == nil || len(wo.wh) == 0 {
+	if wo == nil || wo.deferFn == nil || len(wo.wh) == 0 {
 		return false
 	}
-	f := wo.f.Lit(wo.lit)
+	f := wo.deferFn
 	res := analyze(c, f, flow.Config{
 		NoHavoc: true,
-		Inline:  wo.litSc.inline(),
+		Inline:  wo.litSc.inlineAll(),
 		Track:   func(string) bool { return false },
 		OnCall: func(st *flow.State, call *ast.CallExpr, callee types.Object, deferred bool) {
 			if _, ok := c03clOp(f, call); ok {
@@ -188,7 +287,7 @@ func c03WriteOutIn(c *core.Ctx, wo *c03wo) {
 	if !c.RequireCount("R-C03-7", "WriteHeader calls on the ResponseWriter in serveHTTP", len(wo.wh), 1) {
 		return
 	}
-	if wo.lit == nil {
+	if wo.deferFn == nil {
 		c.Violate("R-C03-7", name+"|write-out is deferred", pos(c, wo.wh[0]),
 			"WriteHeader is not called from a deferred function of serveHTTP: early returns (routing failures, 413, 400) leave without writing the response")
 		return
@@ -212,6 +311,7 @@ func c03WriteOutIn(c *core.Ctx, wo *c03wo) {
 	// w.Header() — in the deferred literal or in a helper it calls
 	type copyLoop struct {
 		rs   ast.Stmt
+		coll ast.Expr
 		resp types.Object
 		ch   *c03chain
 		st   ast.Node // the storing statement/call
@@ -228,8 +328,7 @@ func c03WriteOutIn(c *core.Ctx, wo *c03wo) {
 		if !ok || sel.Sel.Name != "Header" {
 			return false
 		}
-		id, ok := ast.Unparen(sel.X).(*ast.Ident)
-		return ok && c03canon(f, c03obj(f, id)) == wo.w
+		return wo.isW(sel.X)
 	}
 	for _, g := range wo.litSc.fns {
 		for _, lp := range c03loops(f, g.Body) {
@@ -290,7 +389,7 @@ func c03WriteOutIn(c *core.Ctx, wo *c03wo) {
 				return true
 			})
 			if store != nil {
-				loops = append(loops, &copyLoop{rs: lp.stmt, resp: r, st: store, ch: newC03chain(f, lp.stmt, store, nil)})
+				loops = append(loops, &copyLoop{rs: lp.stmt, coll: lp.coll, resp: r, st: store, ch: newC03chain(f, lp.stmt, store, nil)})
 			}
 		}
 	}
@@ -315,8 +414,16 @@ func c03WriteOutIn(c *core.Ctx, wo *c03wo) {
 	var badOrderWH, badOrderCopy, badTwice *flow.State
 	res := analyze(c, f, flow.Config{
 		NoHavoc: true,
-		Inline:  wo.litSc.inline(), // the helpers of the deferred write-out are interpreted in place
-		Track:   func(string) bool { return false },
+		Inline:  wo.litSc.inlineAll(), // the deferred write-out and its helpers are interpreted in place
+		Track:   c03trackEmptiness,
+		AfterAssume: func(st *flow.State, cond ast.Expr, outcome bool) {
+			// a guard around the copy loop: an empty header has nothing to copy
+			for _, l := range loops {
+				if c03emptyColl(f, st, l.coll) {
+					st.Set(evHdr+c03varID(f, l.resp), flow.True)
+				}
+			}
+		},
 		OnNode: func(st *flow.State, n ast.Node) {
 			if n == ast.Node(wo.deferSt) {
 				st.Set(evDefer, flow.True)
@@ -407,7 +514,7 @@ func c03WriteOutIn(c *core.Ctx, wo *c03wo) {
 	c.Check(statusOK, "R-C03-7", name+"|status written is the response's", pos(c, wo.wh[0]),
 		"WriteHeader receives StatusCode() of the response",
 		"WriteHeader is not given the StatusCode() of the response being written: the client does not receive the backend's status")
-	c.Check(badExit == nil && badDefer == nil, "R-C03-7", name+"|header copy, status, payload of one response on every exit", pos(c, wo.lit),
+	c.Check(badExit == nil && badDefer == nil, "R-C03-7", name+"|header copy, status, payload of one response on every exit", pos(c, wo.deferSt),
 		sprintf("%d exits; each ran header copy → WriteHeader → io.Copy on the same response", nExit),
 		"some exit of serveHTTP does not copy the header, write the status and copy the payload of one and the same response to the client", witness(badExit)...)
 	c.Check(badOrderWH == nil && badTwice == nil, "R-C03-7", name+"|header copied before WriteHeader", pos(c, wo.wh[0]),
@@ -417,7 +524,7 @@ func c03WriteOutIn(c *core.Ctx, wo *c03wo) {
 		"io.Copy(w, resp.GetPayload()) is reached only after WriteHeader of the same response",
 		"the payload is written before WriteHeader (net/http then sends an implicit 200 and the real status is lost), is not the response's GetPayload(), or is never copied", witness(badOrderCopy)...)
 	if len(loops) == 0 {
-		c.Violate("R-C03-7", name+"|header copy loop", pos(c, wo.lit),
+		c.Violate("R-C03-7", name+"|header copy loop", pos(c, wo.deferSt),
 			"no loop copies every key of the response's header into the ResponseWriter's header: the client receives none of the backend's headers")
 	}
 	for _, l := range loops {
